@@ -352,9 +352,9 @@ func LoadFromViper(inputViper *viper.Viper) (Config, error) {
 	// then override with settings from input viper (higher precedence)
 	for _, key := range inputViper.AllKeys() {
 		// Handle special case for prefixed keys
-		if after, ok := strings.CutPrefix(key, "rollkit."); ok {
+		if strings.HasPrefix(key, "rollkit.") {
 			// Strip the prefix for the merged viper
-			strippedKey := after
+			strippedKey := flagConfigKey(key)
 			mergedViper.Set(strippedKey, inputViper.Get(key))
 		} else {
 			mergedViper.Set(key, inputViper.Get(key))
@@ -406,6 +406,20 @@ func loadFromViper(v *viper.Viper, home string) (Config, error) {
 	return cfg, nil
 }
 
+// flagConfigKey returns the configuration key set by a flag: the flag name without the
+// "rollkit." prefix. The signer flags are named signer.type and signer.path while the
+// options they set are signer.signer_type and signer.signer_path (the keys of the
+// configuration file), so these two are mapped explicitly.
+func flagConfigKey(flagName string) string {
+	switch flagName {
+	case FlagSignerType:
+		return "signer.signer_type"
+	case FlagSignerPath:
+		return "signer.signer_path"
+	}
+	return strings.TrimPrefix(flagName, "rollkit.")
+}
+
 func bindFlags(basename string, cmd *cobra.Command, v *viper.Viper) (err error) {
 	defer func() {
 		if r := recover(); r != nil {
@@ -414,7 +428,7 @@ func bindFlags(basename string, cmd *cobra.Command, v *viper.Viper) (err error) 
 	}()
 
 	cmd.Flags().VisitAll(func(f *pflag.Flag) {
-		flagName := strings.TrimPrefix(f.Name, "rollkit.") // trimm the prefix from the flag name
+		flagName := flagConfigKey(f.Name) // trimm the prefix from the flag name
 
 		// Environment variables can't have dashes in them, so bind them to their equivalent
 		// keys with underscores, e.g. --favorite-color to STING_FAVORITE_COLOR
